@@ -161,12 +161,18 @@ CLAIMS['C09'] = {
              "(schedule_independent_partial, error_is_schedule_independent, stuck_set_is_schedule_independent). Concrete: the readers "
              "through which pyxis's attempt sees the registry are monotone along registry extension (size_mono, align_mono, pfield_mono, "
              "lookup_ignores_resolution, setState_extends), and every place where the Rust iterates a hash container is followed by a sort "
-             "that removes the order (worklist_order_independent, files_order_independent). Mono for the whole of type_definition::build is "
-             "NOT proved, hence `_partial`. The unconditional claim is decided on the implementation on every run: all permutations of the "
+             "that removes the order (worklist_order_independent, files_order_independent). End to end (Lemmas/Mono.lean): for descriptions "
+             "without vftable blocks the instantiation obligation (attempt_mono: an ok / err answer of type_definition::build and "
+             "enum_definition::build is unchanged after any further resolution) is PROVED, and with it build_schedule_independent_novft, "
+             "build_ok_unique_novft and the whole-case corollaries case_schedule_independent_novft / case_output_schedule_independent_novft / "
+             "case_o2_… / case_o3_…: for every bounded AST case without vftable blocks and every two priority lists the verdict is the same and, "
+             "when accepted, the final state and the observations O2 and O3 are EQUAL (non-vacuity: Example.any_prio, a two-module case with a "
+             "cross-module cycle through a pointer). With vftable blocks the key set grows during the run and the statement is false as "
+             "it stands (open finding below), so that fragment stays `_partial`. The unconditional claim is decided on the implementation on every run: all permutations of the "
              "resolution priority (exhaustive up to 5/6 user items) through the pyxis_verif hook, all module-addition orders, repeated "
              "builds in one process, hook-free runs in fresh processes; all variants must be byte-identical or all fail. Known open "
              "finding: a signature naming a generated <T>Vftable type."),
-    'note': COMMON_NOTE + "the whole-attempt monotonicity is an unproved hypothesis of the end-to-end statement; hash seeds are sampled, resolution orders enumerated through the hook.",
+    'note': COMMON_NOTE + "whole-attempt monotonicity is proved for the vftable-free fragment and remains a hypothesis of the abstract statement for descriptions with vftable blocks; hash seeds are sampled, resolution orders enumerated through the hook.",
     'technique': 'Lean 4 proof (abstract confluence of monotone worklists + monotone readers + sort lemmas) + exhaustive schedule enumeration through a hook + differential correspondence',
 }
 CLAIMS['C10'] = {
